@@ -274,3 +274,323 @@ func init() {
 }
 
 var _ = astisub.NewSubtitles
+
+func init() {
+	streams["ops.order"] = stream{exec: func(a []string) string {
+		xs, _ := decMItems(a[1:])
+		s, ids := buildSubs(xs, int(atoi64(a[0])))
+		s.Order()
+		return encMItems(observe(s.Items, ids))
+	}, gen: func(c *ctx) {
+		r := newRng(c.seed, "ops.order")
+		n := 30000
+		if c.thorough {
+			n = 1000000
+		}
+		for i := 0; i < n; i++ {
+			xs := randList(r, 30, false)
+			if r.chance(1, 2) { // many ties: starts from a tiny grid
+				for j := range xs {
+					xs[j].start = int64(r.intn(4))
+					xs[j].end = xs[j].start + int64(r.intn(3))
+				}
+			}
+			c.do(fmt.Sprintf("ops.order %d %s", r.intn(3), encMItems(xs)))
+			c.count("random")
+		}
+	}}
+
+	streams["ops.fragment"] = stream{exec: func(a []string) string {
+		f, spare := atoi64(a[0]), int(atoi64(a[1]))
+		xs, _ := decMItems(a[2:])
+		s, ids := buildSubs(xs, spare)
+		s.Fragment(time.Duration(f))
+		return encMItems(observe(s.Items, ids))
+	}, gen: func(c *ctx) {
+		run := func(f int64, xs []mItem, spare int) {
+			c.do(fmt.Sprintf("ops.fragment %d %d %s", f, spare, encMItems(xs)))
+		}
+		// exhaustive: start-ordered lists of <= k cues on the grid, two texts, f in 1..5, both aliasing regimes
+		type gr struct {
+			n  int
+			g  int64
+			fs int64
+		}
+		grids := []gr{{0, 6, 4}, {1, 9, 5}, {2, 9, 5}, {3, 5, 4}}
+		if c.thorough {
+			grids = []gr{{0, 6, 5}, {1, 9, 5}, {2, 9, 5}, {3, 9, 5}, {4, 6, 5}}
+		}
+		for _, g := range grids {
+			texts := []int{0, 1}
+			if g.n >= 3 {
+				texts = []int{0}
+			}
+			if c.thorough && g.n == 3 {
+				texts = []int{0, 1}
+			}
+			enumLists(g.n, gridSpans(g.g), texts, func(xs []mItem) {
+				for i := 1; i < len(xs); i++ {
+					if xs[i].start < xs[i-1].start {
+						return
+					}
+				}
+				for f := int64(1); f <= g.fs; f++ {
+					run(f, xs, 0)
+					if len(xs) >= 2 {
+						run(f, xs, 4)
+					}
+					c.count("grid")
+				}
+			})
+		}
+		r := newRng(c.seed, "ops.fragment")
+		nr := 20000
+		if c.thorough {
+			nr = 1000000
+		}
+		for i := 0; i < nr; i++ {
+			xs := randList(r, 12, true)
+			sortByStart(xs)
+			var f int64
+			switch r.intn(4) {
+			case 0:
+				f = r.rangeI(1, 10) * int64(time.Second)
+			case 1:
+				f = r.rangeI(1, 5000) * int64(time.Millisecond)
+			case 2:
+				f = r.rangeI(100, 20000) * int64(time.Millisecond)
+			default:
+				f = r.rangeI(int64(500*time.Millisecond), int64(2*time.Hour))
+			}
+			// keep the number of pieces small
+			if me := maxEnd(xs); me/f > 2000 {
+				f = me/2000 + 1
+			}
+			run(f, xs, r.intn(6))
+			c.count("random")
+		}
+	}}
+
+	streams["ops.unfragment"] = stream{exec: func(a []string) string {
+		xs, _ := decMItems(a[1:])
+		s, ids := buildSubs(xs, int(atoi64(a[0])))
+		s.Unfragment()
+		return encMItems(observe(s.Items, ids))
+	}, gen: func(c *ctx) {
+		run := func(xs []mItem, spare int) {
+			c.do(fmt.Sprintf("ops.unfragment %d %s", spare, encMItems(xs)))
+		}
+		type gr struct {
+			n int
+			g int64
+			t []int
+		}
+		grids := []gr{{0, 5, []int{0}}, {1, 5, []int{0, 1}}, {2, 5, []int{0, 1}}, {3, 5, []int{0, 1}}, {4, 3, []int{0, 1}}}
+		if c.thorough {
+			grids = []gr{{0, 5, []int{0}}, {1, 7, []int{0, 1, 2}}, {2, 7, []int{0, 1, 3}}, {3, 7, []int{0, 1}}, {4, 5, []int{0, 1}}}
+		}
+		for _, g := range grids {
+			enumLists(g.n, gridSpans(g.g), g.t, func(xs []mItem) {
+				run(xs, 0)
+				c.count("grid")
+			})
+		}
+		r := newRng(c.seed, "ops.unfragment")
+		nr := 20000
+		if c.thorough {
+			nr = 1000000
+		}
+		for i := 0; i < nr; i++ {
+			xs := randList(r, 14, true)
+			// few texts, clustered times so that touching is frequent
+			nt := 1 + r.intn(3)
+			pool := []int{0, 2, 3, 4, 6, 7}
+			for j := range xs {
+				xs[j].lines = linePool[pool[r.intn(nt*2)%len(pool)]]
+				if r.chance(2, 3) {
+					xs[j].start = r.rangeI(0, 30) * int64(time.Second)
+					xs[j].end = xs[j].start + r.rangeI(0, 6)*int64(time.Second)
+				}
+			}
+			run(xs, r.intn(3))
+			c.count("random")
+		}
+	}}
+
+	// fragment then unfragment (inverse law of C11)
+	streams["ops.fragunfrag"] = stream{exec: func(a []string) string {
+		f, spare := atoi64(a[0]), int(atoi64(a[1]))
+		xs, _ := decMItems(a[2:])
+		s, ids := buildSubs(xs, spare)
+		s.Fragment(time.Duration(f))
+		s.Unfragment()
+		return encMItems(observe(s.Items, ids))
+	}, gen: func(c *ctx) {
+		r := newRng(c.seed, "ops.fragunfrag")
+		nr := 20000
+		if c.thorough {
+			nr = 500000
+		}
+		for i := 0; i < nr; i++ {
+			xs := randList(r, 10, true)
+			nt := 1 + r.intn(3)
+			for j := range xs {
+				xs[j].lines = linePool[r.intn(nt)]
+				if r.chance(2, 3) {
+					xs[j].start = r.rangeI(0, 30) * int64(time.Second)
+					xs[j].end = xs[j].start + r.rangeI(1, 6)*int64(time.Second)
+				}
+			}
+			sortByStart(xs)
+			f := r.rangeI(1, 5) * int64(time.Second)
+			if r.chance(1, 3) {
+				f = r.rangeI(300, 7000) * int64(time.Millisecond)
+			}
+			c.do(fmt.Sprintf("ops.fragunfrag %d %d %s", f, r.intn(3), encMItems(xs)))
+			c.count("random")
+		}
+	}}
+
+	streams["ops.merge"] = stream{exec: func(a []string) string {
+		kind := a[0]
+		xa, rest := decMItems(a[1:])
+		xb, rest := decMItems(rest)
+		ga, rest := decGraph(rest)
+		gb, _ := decGraph(rest)
+		// uids of B are offset by 1000 by the generator, so one id table serves both
+		sa, ids := buildSubs(xa, 1)
+		sb, idsb := buildSubs(xb, 0)
+		for k, v := range idsb {
+			ids[k] = v
+		}
+		da, db := ga.build(), gb.build()
+		sa.Regions, sa.Styles, sb.Regions, sb.Styles = da.Regions, da.Styles, db.Regions, db.Styles
+		if kind == "1" { // receiver built without the constructor
+			sa.Regions, sa.Styles = nil, nil
+		}
+		sa.Merge(sb)
+		oa, ob := observeGraph(&astisub.Subtitles{Regions: sa.Regions, Styles: sa.Styles}), observeGraph(&astisub.Subtitles{Regions: sb.Regions, Styles: sb.Styles})
+		return encMItems(observe(sa.Items, ids)) + " " + encMItems(observe(sb.Items, ids)) + " " + oa.enc() + " " + ob.enc()
+	}, gen: func(c *ctx) {
+		r := newRng(c.seed, "ops.merge")
+		nr := 20000
+		if c.thorough {
+			nr = 500000
+		}
+		for i := 0; i < nr; i++ {
+			xa, xb := randList(r, 10, false), randList(r, 10, false)
+			if r.chance(1, 2) {
+				for j := range xa {
+					xa[j].start = int64(r.intn(4))
+				}
+				for j := range xb {
+					xb[j].start = int64(r.intn(4))
+				}
+			}
+			for j := range xb {
+				xb[j].uid += 1000
+				xb[j].pay += 1000
+			}
+			ga, gb := randGraph(r, false, false), randGraph(r, false, false)
+			// B's keys equal its ids (what every reader and constructor user produces)
+			for j := range gb.regions {
+				gb.regions[j].key = gb.regions[j].id
+			}
+			for j := range gb.styles {
+				gb.styles[j].key = gb.styles[j].id
+			}
+			kind := 0
+			if r.chance(1, 4) {
+				kind = 1
+				ga.regions, ga.styles = nil, nil
+			}
+			c.do(fmt.Sprintf("ops.merge %d %s %s %s %s", kind, encMItems(xa), encMItems(xb), ga.enc(), gb.enc()))
+			c.count("random")
+		}
+	}}
+
+	streams["ops.optimize"] = stream{exec: func(a []string) string {
+		g, _ := decGraph(a)
+		s := g.build()
+		s.Optimize()
+		return observeGraph(s).enc()
+	}, gen: func(c *ctx) {
+		r := newRng(c.seed, "ops.optimize")
+		nr := 40000
+		if c.thorough {
+			nr = 1000000
+		}
+		for i := 0; i < nr; i++ {
+			g := randGraph(r, true, false)
+			c.do("ops.optimize " + g.enc())
+			c.count("random")
+		}
+	}}
+}
+
+func sortByStart(xs []mItem) {
+	for i := 1; i < len(xs); i++ {
+		for j := i; j > 0 && xs[j].start < xs[j-1].start; j-- {
+			xs[j], xs[j-1] = xs[j-1], xs[j]
+		}
+	}
+}
+
+func init() {
+	streams["ops.removestyling"] = stream{exec: func(a []string) string {
+		g, _ := decGraph(a)
+		s := g.build()
+		type snap struct {
+			st, en time.Duration
+			idx    int
+			txt    string
+		}
+		shot := func() []snap {
+			var o []snap
+			for _, it := range s.Items {
+				t := ""
+				for _, l := range it.Lines {
+					t += "[" + l.VoiceName + "]"
+					for _, r := range l.Items {
+						t += r.Text + fmt.Sprintf("@%d|", r.StartAt)
+					}
+				}
+				o = append(o, snap{it.StartAt, it.EndAt, it.Index, t})
+			}
+			return o
+		}
+		before := shot()
+		s.RemoveStyling()
+		after := shot()
+		same := len(before) == len(after)
+		for i := range before {
+			if same && before[i] != after[i] {
+				same = false
+			}
+		}
+		clean := true
+		for _, it := range s.Items {
+			if it.InlineStyle != nil {
+				clean = false
+			}
+			for _, l := range it.Lines {
+				for _, r := range l.Items {
+					if r.InlineStyle != nil {
+						clean = false
+					}
+				}
+			}
+		}
+		return fmt.Sprintf("%s clean=%v same=%v", observeGraph(s).enc(), clean, same)
+	}, gen: func(c *ctx) {
+		r := newRng(c.seed, "ops.removestyling")
+		nr := 10000
+		if c.thorough {
+			nr = 300000
+		}
+		for i := 0; i < nr; i++ {
+			c.do("ops.removestyling " + randGraph(r, true, true).enc())
+			c.count("random")
+		}
+	}}
+}
